@@ -35,18 +35,45 @@ TOL = 1e-13
 def _mk_input(case, spec):
     """inputs for one evaluation: spec = {'kind': 'nd'|'utpm', 'idx': [probe index per direction], 'hi': [...]}"""
     out = []
+    cplx = spec.get('cplx')          # complex values: base point p[k] + 0.5j p[k'], higher coefficients (1 + 0.5j) hi
     for i, p in enumerate(case['pts']):
         if spec['kind'] == 'nd':
-            out.append(np.array(p[spec['idx'][0]], dtype=spec.get('dtype', 'float64')))
+            if cplx:
+                out.append(np.array(p[spec['idx'][0]] + 0.5j * p[spec['im'][0]]))
+            else:
+                out.append(np.array(p[spec['idx'][0]], dtype=spec.get('dtype', 'float64')))
         else:
             D, P = spec['D'], len(spec['idx'])
-            data = np.zeros((D, P) + p.shape[1:])
+            data = np.zeros((D, P) + p.shape[1:], dtype=complex if cplx else float)
             for q, k in enumerate(spec['idx']):
-                data[0, q] = p[k]
+                data[0, q] = p[k] + (0.5j * p[spec['im'][q]] if cplx else 0.0)
             if D > 1:
-                data[1:] = spec['hi'][i]
+                data[1:] = spec['hi'][i] * ((1 + 0.5j) if cplx else 1.0)
             out.append(UTPM(data))
     return out
+
+
+# operations that are defined alike for real and complex values (entire functions, linear algebra without pivoting decisions,
+# indexing): programs made of them only are also replayed with COMPLEX inputs
+CPLX_UN = ('sin', 'cos', 'exp', 'square', 'negative')
+
+
+def complex_safe(prog):
+    for ins in prog:
+        op = ins[0]
+        if op == 'un' and ins[1] in CPLX_UN:
+            continue
+        if op == 'bin' and ins[1] in ('add', 'sub', 'mul'):
+            continue
+        if op == 'binc' and (ins[1] in ('add', 'sub', 'mul') or ins[4] == 'r'):
+            continue
+        if op == 'pow' and isinstance(ins[2], int) and ins[2] >= 0:
+            continue
+        if op in ('neg', 'get', 'T', 'reshape', 'sum', 'trace', 'dot', 'dotc', 'outer', 'real', 'imag', 'conj', 'tile', 'diag',
+                  'zeros', 'set', 'setc'):
+            continue
+        return False
+    return True
 
 
 def refill(objs, new):
@@ -295,6 +322,7 @@ def replay_cases(draw, tier, first=None, families=None, max_len=8, min_len=1):
     rec['idx'] = [0] * len(rec['idx'])
     case['rec'] = rec
     nrep = draw(st.integers(1, 4))
+    csafe = complex_safe(pr['prog'])
     case['replays'] = []
     for _ in range(nrep):
         if case['replays'] and draw(st.integers(0, 2)) == 0:
@@ -303,6 +331,10 @@ def replay_cases(draw, tier, first=None, families=None, max_len=8, min_len=1):
         else:
             rp = draw(eval_spec(pr['pts'], K, plain_dtypes=True))
         rp['via'] = draw(st.sampled_from(['function', 'pushforward']))
+        if csafe and draw(st.integers(0, 2)) == 0 and not rp.get('reuse'):
+            rp['cplx'] = True
+            rp['im'] = [draw(st.integers(0, K - 1)) for _ in rp['idx']]
+            rp.pop('dtype', None)
         case['replays'].append(rp)
     case['nest'] = draw(st.integers(0, 3)) == 0
     return case
@@ -324,6 +356,8 @@ def _classes(case):
         c.append('replay:%s->%s' % (case['rec']['kind'], r['kind']))
     if any(r['kind'] == 'utpm' and case['rec']['kind'] == 'utpm' and _sig(r) != _sig(case['rec']) for r in case['replays']):
         c.append('replay:other-D-P')
+    if any(r.get('cplx') for r in case['replays']):
+        c.append('replay:complex-values')
     if any(r.get('reuse') for r in case['replays']):
         c.append('replay:same-spec-as-previous')
     if case.get('nest'):
@@ -334,7 +368,7 @@ def _classes(case):
 
 SINGLE = ['un', 'kink', 'special', 'unp', 'bin', 'bcast', 'binc', 'pow', 'powreg', 'neg', 'get', 'T', 'reshape', 'buf', 'set', 'rmw', 'sum', 'prod', 'trace',
           'dot', 'dotc', 'dotnd', 'outer', 'inv', 'solve', 'det', 'logdet', 'qr', 'chol', 'eigh', 'svd', 'lu', 'fft', 'tile', 'diag',
-          'symvec']
+          'symvec', 'vecsym', 'cplx']
 CHEAP_TAIL = ['un', 'bin', 'binc', 'neg', 'get', 'set']
 
 
